@@ -12,7 +12,7 @@ ID = "C13"
 LEVEL = "model_checking"
 RULE = (
     "states = canonical states of one real Problem reached by operation histories over the alphabet {minimize(e), "
-    "maximize(e) for e in {linear, linear', convex quadratic, non-quadratic}; subject_to(c), subject_to([c,c']) for c "
+    "maximize(e) for e in {linear, linear', convex quadratic, non-quadratic over x, y; linear / quadratic objectives over other variable sets of equal size (a,x,y / x,y,z / a,x,z)}; subject_to(c), subject_to([c,c']) for c "
     "in {linear <=, linear >=, linear ==, nonlinear <=} (at most 2 constraints, 3 thorough); x.ub := 2|4, y.lb := "
     "0|1; solve(m) for m in {auto, linprog, highs, SLSQP, trust-constr, L-BFGS-B}; read (.variables, .n_variables, "
     "get_bounds(), linearity decision)}.  Four closed drivers (LP<->NLP switching; constraint additions incl. "
@@ -36,14 +36,23 @@ OBJ_KEYS = ("L1", "L2", "Q", "N")
 CON_KEYS = ("c1", "c2", "c3", "c4")
 
 
-def formulas(x, y):
+def formulas(x, y, a=None, z=None):
     import optyx
 
+    if a is None:
+        a = optyx.Variable("a", lb=0.0, ub=5.0)
+    if z is None:
+        z = optyx.Variable("z", lb=0.0, ub=3.0)
     objs = {
         "L1": lambda: x + 2 * y,
         "L2": lambda: 3 * x - y + 1,
         "Q": lambda: (x - 1) ** 2 + (y - 2) ** 2,
         "N": lambda: optyx.exp(0.5 * x) + (y - 1) ** 4,
+        # objectives over other variable sets: same size as {x, y} + one, shifted columns, a variable dropped
+        "La": lambda: a + x + y,
+        "Lz": lambda: x + y + 2 * z,
+        "Laz": lambda: a - x + z,
+        "Qz": lambda: (x - 1) ** 2 + (z - 2) ** 2 + y,
     }
     cons = {
         "c1": lambda: x + y <= 3,
@@ -90,7 +99,17 @@ def fresh_problem(m):
     return P, x, y
 
 
-PROBES = (np.array([0.5, 1.5]), np.array([1.75, 0.25]), np.array([3.0, 2.0]))
+_PROBES = (np.array([0.5, 1.5, 0.75, 2.5]), np.array([1.75, 0.25, 1.25, 0.5]), np.array([3.0, 2.0, 0.25, 1.0]))
+
+
+def probes(n):
+    return tuple(p[:n] for p in _PROBES)
+
+
+def scripted(call):
+    """prefix solves are answered by the environment: the all-ones point of the right dimension"""
+    n = len(call.kw["c"]) if call.kind == "linprog" else len(call.kw["x0"])
+    return result(np.ones(n), fun=0.0)
 
 
 def call_signature(call):
@@ -102,6 +121,7 @@ def call_signature(call):
         return ("linprog", kw.get("method"), arr(kw.get("c")), arr(kw.get("A_ub")), arr(kw.get("b_ub")), arr(kw.get("A_eq")),
                 arr(kw.get("b_eq")), [tuple(None if b is None else float(b) for b in bd) for bd in (kw.get("bounds") or [])])
     sig = ["minimize", kw.get("method")]
+    PROBES = probes(len(kw["x0"]))
     for p in PROBES:
         sig.append(round(float(kw["fun"](p)), 10))
         sig.append(None if kw.get("jac") is None else np.asarray(kw["jac"](p), dtype=float).round(10).tolist())
@@ -244,7 +264,7 @@ class Driver:
                     kw = {} if op[1] == "auto" else {"method": op[1]}
                     with warnings.catch_warnings():
                         warnings.simplefilter("ignore")
-                        with Seam(script=[lambda call: result(np.array([1.0, 1.0]), fun=0.0)] * 3, passthrough=False):
+                        with Seam(script=[scripted] * 3, passthrough=False):
                             try:
                                 P.solve(**kw)
                             except Exception:
@@ -297,10 +317,14 @@ DRIVERS = {
     "bounds": dict(roots=[(("min", "Q"),), (("min", "L1"), ("st", "c1"))],
                    menu=[("xub", 2.0), ("xub", 4.0), ("ylb", 1.0), ("ylb", 0.0), S("auto"), S("L-BFGS-B"), S("SLSQP"),
                          S("trust-constr"), S("highs"), ("read",)], depth=None),
+    "variable-set": dict(roots=[(("st", "c1"), ("st", "c3"))],
+                         menu=[("max", "La"), ("max", "Lz"), ("min", "Laz"), ("min", "L1"), ("min", "Qz"), S("auto"), S("SLSQP"),
+                               ("read",)], depth=None),
     "sense-hessian": dict(roots=[()], menu=[("min", "N"), ("max", "N"), ("min", "Q"), ("max", "Q"), ("st", "c1"), S("trust-constr"),
                                             S("SLSQP"), S("auto"), ("read",)], depth=None, max_cons=1),
 }
-FULL_MENU = ([("min", k) for k in OBJ_KEYS] + [("max", k) for k in OBJ_KEYS] + [("st", k) for k in CON_KEYS]
+FULL_MENU = ([("min", k) for k in OBJ_KEYS] + [("max", k) for k in OBJ_KEYS] + [("max", "La"), ("max", "Lz")]
+             + [("st", k) for k in CON_KEYS]
              + [("stl", ("c1", "c2")), ("stl", ("c3", "c4")), ("xub", 2.0), ("xub", 4.0), ("ylb", 1.0), ("ylb", 0.0)]
              + [S(m) for m in METHODS] + [("read",)])
 
